@@ -39,5 +39,26 @@ for d in sorted(glob.glob(os.path.join(HERE, "..", "seeded", "*"))):
     tgt = m.get("property", os.path.basename(d)[:3])
     esc = lambda s: str(s).replace("\n", " ").replace("|", "\\|")[:160]
     out.append("| %s | %s | %s | %s | %s | %s |" % (os.path.basename(d), tgt, esc(m.get("summary", "")), esc(m.get("needs", "")), ", ".join(fired) or "-", "yes" if tgt in fired else ("**no**" if cr else "not run")))
+out += ["", "## 3. Independently written property-preserving changes (seeded_silent/<id>/)", "",
+        "Behaviour-changing edits that keep the target property true; evaluated on scratch copies against all 20 monitors (`run_scratch.py --patch`). `target silent` must be yes; flags by other properties were examined one by one (DESIGN 8.2).", "",
+        "| id | target | what was changed | flagged by (all monitors, first evaluation) | target silent (final harness) |", "|---|---|---|---|---|"]
+for d in sorted(glob.glob(os.path.join(HERE, "..", "seeded_silent", "*"))):
+    mp = os.path.join(d, "meta.json")
+    if not os.path.exists(mp):
+        continue
+    m = json.load(open(mp))
+    name = os.path.basename(d)
+    tgt = m.get("property", name[:3])
+    first = os.path.join(HERE, "results", "K-%s.json" % name)
+    flagged = sorted(json.load(open(first))["flagged"]) if os.path.exists(first) else None
+    final = None
+    for pref in ("K3-", "K2-", "K-"):
+        fp = os.path.join(HERE, "results", pref + name + ".json")
+        if os.path.exists(fp):
+            r = json.load(open(fp))
+            final = tgt not in r["flagged"]
+            break
+    esc = lambda s: str(s).replace("\n", " ").replace("|", "\\|")[:150]
+    out.append("| %s | %s | %s | %s | %s |" % (name, tgt, esc(m.get("summary", "")), ", ".join(flagged) if flagged is not None else "not run", "yes" if final else ("**NO**" if final is not None else "not run")))
 open(os.path.join(HERE, "RESULTS.md"), "w").write("\n".join(out) + "\n")
 print("battery ok:", ok_all)
